@@ -1,7 +1,15 @@
-// Package c12: CLOS classes (temporary probe skeleton).
+// Package c12: CLOS classes — precedence, slot initialisation, accessors,
+// redefinition and typep/class-of/dispatch agreement, decided by exhaustive
+// enumeration of class DAGs x slot option sets x every order of the defclass
+// forms (forward references included) x every initarg subset x one optional
+// redefinition, each history executed on the real slip and judged by an
+// oracle written from the property statement.
 package c12
 
 import (
+	"fmt"
+	"hash/fnv"
+	"sort"
 	"strings"
 
 	"verif/engine"
@@ -10,17 +18,589 @@ import (
 
 func init() {
 	engine.Register(&engine.Prop{
-		ID:        "C12",
-		Level:     "model_checking",
-		Enumerate: func(tier string, emit func(string)) {},
+		ID:    "C12",
+		Level: "model_checking",
+		Rule: "a case = (class DAG on n classes with ordered direct superclasses, per-class options for slots s and u, optional redefinition of one class, " +
+			"warm flag); Exec runs EVERY order of the n (+1) defclass forms (redefinition after the original; superclasses may be defined after their " +
+			"subclasses) on fresh class/function names, checks class-precedence after every step for the classes whose ancestors are all defined, and at " +
+			"the end, for every class: class-precedence, make-instance with every subset of the valid initargs + state of both slots, slot-value of an " +
+			"unbound slot, typep against every class, class-of, a generic function with one :before and one primary method per class, and " +
+			"reader/accessor/(setf accessor)/writer on two instances; observations are judged by the oracle and compared across orders; " +
+			"histories of a redefinition with indirect subclasses are run 3x (Go map order in classChanged, S4); " +
+			"a case is non-trivial when it has at least one superclass edge or a redefinition",
+		Assumptions: []string{
+			"writers are called slip's documented way, (writer object value)",
+			"typep against t is not asked (slip reads 't as the true object, which typep rejects); t is checked in the precedence list only",
+			"when two supplied initargs name the same slot either value or a Lisp error is accepted (statement silent)",
+			"slot-value of an unbound slot must signal some Lisp error (the statement only says the slot stays unbound)",
+			"the relative order of two indirect ancestors is not prescribed; only equality across definition orders is demanded there",
+		},
+		Enumerate: enumerate,
 		Exec:      exec,
+		Required: []string{"forward-ref-history", "forward-ref-indirect-ancestor", "diamond", "redundant-direct", "shadowed-slot", "inherited-initform",
+			"shared-initarg", "two-initargs-one-slot", "redef-direct-subclass", "redef-indirect-subclass", "redef-before-superclass-defined",
+			"warm-dispatch", "accessor-checked", "unbound-slot-checked", "mid-history-precedence"},
+		Bound:    bound,
+		Selftest: selftest,
 	})
 }
 
+func bound(tier string) string {
+	if tier == engine.Thorough {
+		return "no redefinition: 1 class x full slot alphabet (34 option pairs); all 2-class DAGs x full alphabet; all 10 3-class DAGs x 13-pair curated alphabet; " +
+			"all 160 4-class DAGs x 5-pair alphabet; initform nil: 1-3 classes x 5-pair alphabet; 10 five-class chain/diamond shapes x 3-pair alphabet; every permutation of the defclass forms each (up to 120). " +
+			"Redefinition of any one class (initform/slot added, slots removed, initarg instead of initform, slot u added, superclasses reversed/dropped/added) " +
+			"at every later point of every order: all 2- and 3-class DAGs x 5-pair alphabet x warm/cold; 4-class DAGs with <= 2 direct superclasses x slot s with initform (cold). " +
+			"All subsets of valid initargs. CUT relative to the design: 5 classes restricted to 10 shapes; 4-class redefinition restricted to one slot alphabet entry."
+	}
+	return "no redefinition: 1 class x full slot alphabet (34 option pairs); both 2-class DAGs x 13-pair curated alphabet; all 10 3-class DAGs x 9-pair alphabet; " +
+		"all 160 4-class DAGs with slot s :initform in every class; initform nil: 1-2 classes x 5-pair, 3 classes x 3-pair alphabet; every permutation of the " +
+		"defclass forms each. Redefinition of any one class (8 kinds) at every later point of every order: 2-class DAGs x 3-pair alphabet, 3-class DAGs x 2-pair alphabet, warm and cold. " +
+		"All subsets of valid initargs. CUT relative to the design: slot alphabets smaller than in thorough; no 5-class cases."
+}
+
+// ---------------------------------------------------------------- running one history
+
+type histRun struct {
+	mid   []finding
+	final obsMap
+}
+
+func runHistory(w world, c *caseSpec, hist []int) histRun {
+	var hr histRun
+	defs := make([]classDef, c.n)
+	defined := make([]bool, c.n)
+	for step, f := range hist {
+		var e, e2 string
+		cls := f
+		if f == c.n {
+			cls = c.redef.r
+			if c.warm {
+				for i := 0; i < c.n; i++ {
+					if _, ok := ancestors(defs, defined, i); ok {
+						w.warm(i)
+					}
+				}
+			}
+			defs[cls] = c.redef.def
+			e = w.defclass(cls, c.redef.def)
+		} else {
+			defs[f] = c.defs[f]
+			defined[f] = true
+			e = w.defclass(f, c.defs[f])
+			e2 = w.defmethods(f)
+		}
+		if e != "" {
+			kind := "error"
+			if isGoFault(e) {
+				kind = "go-fault"
+			}
+			hr.mid = append(hr.mid, finding{key: fmt.Sprintf("F|%d", cls), cls: cls, aspect: "defclass", kind: kind,
+				detail: fmt.Sprintf("defclass of %s %s => %s", cname(cls), supNames(defs[cls].supers), e)})
+		}
+		if e2 != "" {
+			hr.mid = append(hr.mid, finding{key: fmt.Sprintf("G|%d", cls), cls: cls, aspect: "defmethod", kind: "error",
+				detail: fmt.Sprintf("defmethod specialised on %s => %s", cname(cls), e2)})
+		}
+		if step == len(hist)-1 {
+			break
+		}
+		for i := 0; i < c.n; i++ {
+			if _, ok := ancestors(defs, defined, i); !ok {
+				continue
+			}
+			obs := w.precedence(i)
+			if k := checkPrec(defs, i, obs); k != "" {
+				hr.mid = append(hr.mid, finding{key: fmt.Sprintf("Pm|%d", i), cls: i, aspect: "precedence-mid-history", kind: k,
+					detail: fmt.Sprintf("after %d of %d forms, all ancestors of %s defined: class-precedence = %s; canonical reading %s",
+						step+1, len(hist), cname(i), obs, precText(canonPrec(defs, i)))})
+			}
+		}
+	}
+	hr.final = observeFinal(w, c.finalDefs())
+	return hr
+}
+
+// ---------------------------------------------------------------- verdict over all histories of a case
+
+type sigAgg struct {
+	fixed  bool // the signature carries no order class
+	core   string
+	aspect string
+	key    string
+	cls    int
+	fails  map[int]int // history index -> bit set of failing repetitions
+	detail string
+}
+
+func histText(c *caseSpec, h []int) string {
+	var out []string
+	for _, f := range h {
+		if f == c.n {
+			out = append(out, "redefine-"+cname(c.redef.r))
+		} else {
+			out = append(out, cname(f))
+		}
+	}
+	return strings.Join(out, " ")
+}
+
+// tagOf: the order class of history h as seen from class i.
+func tagOf(c *caseSpec, fin []classDef, h []int, i int) string {
+	pos := map[int]int{}
+	for p, f := range h {
+		pos[f] = p
+	}
+	if c.redef != nil {
+		if pos[i] < pos[c.n] {
+			return "class-before-redefinition"
+		}
+		return "class-after-redefinition"
+	}
+	anc, _ := ancestors(fin, nil, i)
+	for a := range anc {
+		if pos[i] < pos[a] {
+			return "forward-reference"
+		}
+	}
+	return "supers-first"
+}
+
+var instanceAspects = map[string]bool{"make-instance": true, "slot-init": true, "accessor": true, "slot-unbound": true}
+var shapeAspects = map[string]bool{"precedence": true, "precedence-mid-history": true, "typep": true, "dispatch": true, "class-of": true}
+
+func judgeCase(c *caseSpec, mk func() world, reps int, res *engine.Result) (firstObs obsMap) {
+	hists := c.histories()
+	fin := c.finalDefs()
+	aggs := map[string]*sigAgg{}
+	aspectFails := map[string]map[int]bool{}
+	failedKeys := map[string]bool{}
+	failedClass := map[int]bool{}
+	var order []string
+	redef := "none"
+	if c.redef != nil {
+		redef = redefKind(c.defs[c.redef.r], c.redef.def)
+	}
+	record := func(hi, rep int, h []int, f finding, stale bool) {
+		rel := ""
+		if c.redef != nil {
+			r := c.redef.r
+			ancN, _ := ancestors(fin, nil, f.cls)
+			ancO, _ := ancestors(c.defs, nil, f.cls)
+			direct := false
+			for _, s := range append(append([]int(nil), fin[f.cls].supers...), c.defs[f.cls].supers...) {
+				if s == r {
+					direct = true
+				}
+			}
+			switch {
+			case f.cls == r:
+				rel = "/redefined-class"
+			case direct:
+				rel = "/direct-subclass"
+			case ancN[r] || ancO[r]:
+				rel = "/indirect-subclass"
+			default:
+				rel = "/unrelated-class"
+			}
+		}
+		aspect, kind, extra := f.aspect, f.kind, f.extra
+		fixed := false
+		var core string
+		switch {
+		case f.shared:
+			// the case contains the trigger "one supplied initarg names two slots" and the slot named by it was not filled
+			core = "aspect=slot-init kind=shared-initarg-slot-not-filled got=" + f.got
+			fixed = true
+		case aspect == "dispatch" && c.redef != nil && c.warm && f.obs != "" && f.obs == dispatchUnder(c.defs, f.cls):
+			// the effective method is the one computed before the redefinition
+			aspect, kind, extra = "dispatch-after-redefinition", "effective-method-as-before-redefinition", ""
+		case stale && instanceAspects[aspect]:
+			aspect, kind, extra = "instance-state", "as-before-redefinition", ""
+		case stale:
+			extra = ""
+		}
+		if !fixed {
+			core = "aspect=" + aspect + " kind=" + kind
+			if extra != "" {
+				core += " " + extra
+			}
+			if shapeAspects[aspect] {
+				core += " shape=" + shape(fin, f.cls)
+			}
+			core += " redef=" + redef + rel
+			if c.redef != nil {
+				if aspect == "dispatch-after-redefinition" {
+				} else if stale {
+					core += " matches-old-definition=yes"
+				} else {
+					core += " matches-old-definition=no"
+				}
+				if c.warm && strings.HasPrefix(aspect, "dispatch") {
+					core += " called-before-redefinition=yes"
+				}
+			}
+		}
+		id := fmt.Sprintf("%s\x00%d", core, f.cls)
+		ak := fmt.Sprintf("%s\x00%d", f.aspect, f.cls)
+		if aspectFails[ak] == nil {
+			aspectFails[ak] = map[int]bool{}
+		}
+		aspectFails[ak][hi] = true
+		failedKeys[f.key] = true
+		if f.kind != "differs-between-definition-orders" {
+			failedClass[f.cls] = true
+		}
+		a := aggs[id]
+		if a == nil {
+			a = &sigAgg{fixed: fixed, core: core, key: f.key, cls: f.cls, aspect: f.aspect, fails: map[int]int{}, detail: "order [" + histText(c, h) + "]: " + f.detail}
+			aggs[id] = a
+			order = append(order, id)
+		}
+		a.fails[hi] |= 1 << rep
+	}
+	finals := make([][]obsMap, len(hists))
+	for hi, h := range hists {
+		for rep := 0; rep < reps; rep++ {
+			w := mk()
+			hr := runHistory(w, c, h)
+			w.close()
+			finals[hi] = append(finals[hi], hr.final)
+			if firstObs == nil {
+				firstObs = hr.final
+			}
+			fs := judgeFinal(fin, hr.final)
+			var oldFail map[string]bool
+			if c.redef != nil && 0 < len(fs) {
+				oldFail = map[string]bool{}
+				for _, of := range judgeFinal(c.defs, hr.final) {
+					oldFail[of.key] = true
+				}
+			}
+			for _, f := range hr.mid {
+				record(hi, rep, h, f, false)
+			}
+			for _, f := range fs {
+				record(hi, rep, h, f, oldFail != nil && !oldFail[f.key])
+			}
+		}
+	}
+	// differential: the same definitions in another order must give the same observations
+	var keysSorted []string
+	for k := range finals[0][0] {
+		keysSorted = append(keysSorted, k)
+	}
+	sort.Strings(keysSorted)
+	aspectOf := map[byte]string{'P': "precedence", 'M': "make-instance", 'S': "slot-init", 'U': "slot-unbound", 'T': "typep", 'C': "class-of", 'D': "dispatch", 'A': "accessor"}
+	for _, k := range keysSorted {
+		var kc int
+		fmt.Sscanf(k[2:], "%d", &kc)
+		if failedKeys[k] || failedClass[kc] {
+			continue // already reported against the statement (S3)
+		}
+		ref := finals[0][0][k]
+		for hi := range hists {
+			for rep, o := range finals[hi] {
+				if o[k] != ref && o[k] != "" && ref != "" && !failedKeys[k] {
+					failedKeys[k] = true
+					var cls int
+					fmt.Sscanf(k[2:], "%d", &cls)
+					record(hi, rep, hists[hi], finding{key: k, cls: cls, aspect: aspectOf[k[0]], kind: "differs-between-definition-orders",
+						detail: fmt.Sprintf("observation %s is %q here but %q after order [%s]", k, o[k], ref, histText(c, hists[0]))}, false)
+				}
+			}
+		}
+	}
+	// order class per (signature core, observation key)
+	seen := map[string]bool{}
+	for _, id := range order {
+		a := aggs[id]
+		fails := aspectFails[fmt.Sprintf("%s\x00%d", a.aspect, a.cls)]
+		tags := map[string]bool{}
+		for hi, h := range hists {
+			if fails[hi] {
+				tags[tagOf(c, fin, h, a.cls)] = true
+			}
+		}
+		ord := "mixed"
+		switch {
+		case len(hists) == 1:
+			ord = "all"
+		case c.redef != nil && len(tags) == 1:
+			for t := range tags {
+				ord = t
+			}
+		case c.redef != nil:
+			ord = "both-sides-of-redefinition"
+		case len(fails) == len(hists):
+			ord = "all"
+		case len(tags) == 1:
+			for t := range tags {
+				ord = t
+			}
+		}
+		if strings.Contains(a.core, "kind=differs-between-definition-orders") {
+			ord = "n/a"
+		}
+		flaky := false
+		for _, n := range a.fails {
+			if n != 1<<reps-1 {
+				flaky = true
+			}
+		}
+		sig := a.core + " orders=" + ord
+		if a.fixed {
+			sig = a.core
+		}
+		if seen[sig] {
+			continue
+		}
+		seen[sig] = true
+		d := a.detail + fmt.Sprintf(" [fails in %d of %d definition orders", len(a.fails), len(hists))
+		if flaky {
+			d += "; not in every repetition of the same order (Go map iteration order)"
+		}
+		d += "]"
+		res.Fail(sig, d)
+	}
+	return
+}
+
+// dispatchUnder: the dispatch observation the canonical reading of defs gives for class i.
+func dispatchUnder(defs []classDef, i int) string {
+	var tr []string
+	for _, x := range canonPrec(defs, i) {
+		tr = append(tr, cname(x))
+	}
+	return "val=" + cname(i) + " trace=" + strings.Join(tr, ",")
+}
+
+// ---------------------------------------------------------------- Exec
+
+func hasIndirectDescendant(c *caseSpec) bool {
+	if c.redef == nil {
+		return false
+	}
+	r := c.redef.r
+	for _, defs := range [][]classDef{c.defs, c.finalDefs()} {
+		for i := 0; i < c.n; i++ {
+			anc, _ := ancestors(defs, nil, i)
+			if !anc[r] {
+				continue
+			}
+			direct := false
+			for _, s := range defs[i].supers {
+				if s == r {
+					direct = true
+				}
+			}
+			if !direct || 1 < len(anc) {
+				// r reached through another class, or i has further ancestors whose lists may be stale
+				for a := range anc {
+					if a != r {
+						aa, _ := ancestors(defs, nil, a)
+						if aa[r] {
+							return true
+						}
+					}
+				}
+			}
+		}
+	}
+	return false
+}
+
 func exec(spec string) (res engine.Result) {
-	if strings.HasPrefix(spec, "lisp:") {
+	if strings.HasPrefix(spec, "lisp:") { // development probe
 		val, tr, err := lisp.Run(spec[5:])
 		res.Outcome = val + " trace=" + strings.Join(tr, ",") + " err=" + err.String()
+		return
+	}
+	c, err := parseCase(spec)
+	if err != nil {
+		res.Fail("harness:bad-spec", spec+": "+err.Error())
+		return
+	}
+	reps := 1
+	if hasIndirectDescendant(c) {
+		reps = 3
+	}
+	first := judgeCase(c, func() world { return newRealWorld(c.n) }, reps, &res)
+	counters(c, &res)
+	h := fnv.New64a()
+	var ks []string
+	for k, v := range first {
+		ks = append(ks, k+"="+v)
+	}
+	sort.Strings(ks)
+	for _, k := range ks {
+		h.Write([]byte(k))
+		h.Write([]byte{0})
+	}
+	res.Outcome = fmt.Sprintf("%s #%x", first[fmt.Sprintf("P|%d", c.n-1)], h.Sum64())
+	return
+}
+
+func counters(c *caseSpec, res *engine.Result) {
+	fin := c.finalDefs()
+	edges := 0
+	for _, sets := range [][]classDef{c.defs, fin} {
+		for i := 0; i < c.n; i++ {
+			edges += len(sets[i].supers)
+			switch shape(sets, i) {
+			case "diamond":
+				res.Hit("diamond")
+			case "redundant-direct":
+				res.Hit("redundant-direct")
+			case "fork":
+				res.Hit("fork")
+			}
+			for _, sl := range slotNames {
+				if declRel(sets, i, sl) == "shadowed" {
+					res.Hit("shadowed-slot")
+				}
+				if _, own := sets[i].slot(i, sl); !own || func() bool { sd, _ := sets[i].slot(i, sl); return sd.form == 0 }() {
+					if w := expectSlot(sets, canonPrec(sets, i), sl, nil); w.src == "initform" {
+						res.Hit("inherited-initform")
+					}
+				}
+				if slotExists(sets, i, sl) {
+					res.Hit("accessor-checked")
+					if w := expectSlot(sets, canonPrec(sets, i), sl, nil); w.src == "unbound" {
+						res.Hit("unbound-slot-checked")
+					}
+				}
+			}
+			va := validArgs(sets, i)
+			for _, a := range va {
+				if 1 < len(argSlots(sets, i, a)) {
+					res.Hit("shared-initarg")
+				}
+			}
+			for _, sl := range slotNames {
+				if w := expectSlot(sets, canonPrec(sets, i), sl, va); w.src == "initarg-multi" {
+					res.Hit("two-initargs-one-slot")
+				}
+			}
+		}
+	}
+	if 0 < edges || c.redef != nil {
+		res.Nontrivial = true
+	}
+	for _, h := range c.histories() {
+		pos := map[int]int{}
+		for p, f := range h {
+			pos[f] = p
+		}
+		fwd, fwdInd := false, false
+		for i := 0; i < c.n; i++ {
+			anc, _ := ancestors(fin, nil, i)
+			for a := range anc {
+				if pos[i] < pos[a] {
+					fwd = true
+					direct := false
+					for _, s := range fin[i].supers {
+						if s == a {
+							direct = true
+						}
+					}
+					if !direct {
+						fwdInd = true
+					}
+				}
+			}
+		}
+		if fwd {
+			res.Hit("forward-ref-history")
+		}
+		if fwdInd {
+			res.Hit("forward-ref-indirect-ancestor")
+		}
+		if 2 < len(h) {
+			res.Hit("mid-history-precedence")
+		}
+		if c.redef != nil {
+			r := c.redef.r
+			for _, s := range c.redef.def.supers {
+				if pos[c.n] < pos[s] {
+					res.Hit("redef-before-superclass-defined")
+				}
+			}
+			for i := 0; i < c.n; i++ {
+				if i == r || pos[c.n] < pos[i] {
+					continue
+				}
+				anc, _ := ancestors(fin, nil, i)
+				if !anc[r] {
+					continue
+				}
+				direct := false
+				for _, s := range fin[i].supers {
+					if s == r {
+						direct = true
+					}
+				}
+				if direct {
+					res.Hit("redef-direct-subclass")
+				} else {
+					res.Hit("redef-indirect-subclass")
+				}
+			}
+			if c.warm {
+				res.Hit("warm-dispatch")
+			}
+		}
+	}
+}
+
+// ---------------------------------------------------------------- oracle-sensitivity self-test (S6)
+
+func selftest(tier string) (killed, total int, notes []string) {
+	var specs []string
+	enumerate(tier, func(s string) { specs = append(specs, s) })
+	stride := len(specs)/1000 + 1
+	alive := map[string]bool{}
+	for _, m := range mutants {
+		alive[m] = true
+	}
+	total = len(mutants)
+	checked := 0
+	refBad := ""
+	for k := 0; k < len(specs); k += stride {
+		c, err := parseCase(specs[k])
+		if err != nil {
+			continue
+		}
+		checked++
+		var r engine.Result
+		judgeCase(c, func() world { return newSim(c.n, "") }, 1, &r)
+		if 0 < len(r.Failures) && refBad == "" {
+			refBad = fmt.Sprintf("the oracle rejects the unmutated reference on %s: %s (%s)", specs[k], r.Failures[0].Sig, r.Failures[0].Detail)
+		}
+		for _, m := range mutants {
+			if !alive[m] {
+				continue
+			}
+			var mr engine.Result
+			mm := m
+			judgeCase(c, func() world { return newSim(c.n, mm) }, 1, &mr)
+			if 0 < len(mr.Failures) {
+				alive[m] = false
+				notes = append(notes, fmt.Sprintf("%s: killed by %s (%s)", m, specs[k], mr.Failures[0].Sig))
+			}
+		}
+	}
+	for _, m := range mutants {
+		if alive[m] {
+			notes = append(notes, m+": NOT distinguished")
+		} else {
+			killed++
+		}
+	}
+	notes = append(notes, fmt.Sprintf("unmutated reference judged on %d cases (every %d-th of %d)", checked, stride, len(specs)))
+	if refBad != "" {
+		notes = append(notes, refBad)
+		killed = -1
 	}
 	return
 }
